@@ -28,6 +28,7 @@ def shards(tier, seed):
     caps = range(0, 11 if tier == "quick" else 21)
     out = [(k, c) for k in KINDS for c in caps]
     out += [(k, c, "grown") for k in KINDS for c in caps if c]
+    out += [("big", k) for k in KINDS]
     return out[seed % len(out):] + out[: seed % len(out)]
 
 
@@ -62,6 +63,8 @@ def raw(b):
 
 
 def payload(n, salt):
+    if n > 4096:  # the same bytes, computed with numpy
+        return (((np.arange(n, dtype=np.int64) * 37 + salt * 11 + 0x3C) % 199) + 7).astype("u1").tobytes()
     return bytes(((i * 37 + salt * 11 + 0x3C) % 199) + 7 for i in range(n))
 
 
@@ -102,7 +105,91 @@ def call(c, prim, feat, fn):
         return False, None
 
 
+BIG_SIZES = [65535, 65536, 65537, (1 << 20) - 1, 1 << 20, (1 << 20) + 1, (1 << 20) + 4097, (1 << 21) + 5, 3 * (1 << 20) + 8]
+
+
+def run_big(kind, tier, seed):
+    """the byte-moving primitives with lengths around the sizes at which an implementation may switch to another way of
+    copying (64 KiB, 1 MiB and a few multiples): unaligned offsets, guard zones before and after the requested range"""
+    res = common.ShardResult()
+    c = Ctxt(res, kind, -1)
+    salt = seed % 50
+    okind = "ba" if kind == "np" else "np"
+    for n in BIG_SIZES if tier == "thorough" else BIG_SIZES[::2] + BIG_SIZES[-2:-1]:
+        off, so = 4099, 37
+        cap = off + n + 4101
+        data = payload(n, salt + 3)
+
+        def fresh():
+            return mk(kind, cap, salt)
+
+        feat = dict(offset=off, nbytes=n, size_class="big")
+        b, m = fresh()
+        okc, _ = call(c, "update_from_buffer", feat, lambda: b.update_from_buffer(off, data))
+        if okc:
+            m[off : off + n] = data
+            if expect_state(c, "update_from_buffer", b, m, feat):
+                c.ok("update_from_buffer")
+        for sname, skind, sctx in (("same-ctx-same-kind", kind, 0), ("same-ctx-other-kind", okind, 0), ("other-ctx-same-kind", kind, 1), ("other-ctx-other-kind", okind, 1)):
+            s2, sm = mk(skind, so + n + 4101, salt + 13, context=place.ctx(sctx))
+            b, m = fresh()
+            f2 = dict(feat, source=sname)
+            okc, _ = call(c, "update_from_xbuffer", f2, lambda: b.update_from_xbuffer(off, s2, so, n))
+            if okc:
+                m[off : off + n] = sm[so : so + n]
+                if expect_state(c, "update_from_xbuffer", b, m, f2) and expect_state(c, "update_from_xbuffer", s2, sm, f2, "(source)"):
+                    c.ok("update_from_xbuffer")
+        s2, sm = mk(kind, so + n + 7, salt + 9)
+        b, m = fresh()
+        okc, _ = call(c, "update_from_native", feat, lambda: b.update_from_native(off, s2.buffer, so, n))
+        if okc:
+            m[off : off + n] = sm[so : so + n]
+            if expect_state(c, "update_from_native", b, m, feat):
+                c.ok("update_from_native")
+        d2, dm = mk(kind, so + n + 7, salt + 5)
+        b, m = fresh()
+        okc, _ = call(c, "copy_to_native", feat, lambda: b.copy_to_native(d2.buffer, so, off, n))
+        if okc:
+            dm[so : so + n] = m[off : off + n]
+            if expect_state(c, "copy_to_native", d2, dm, feat, "(destination)") and expect_state(c, "copy_to_native", b, m, feat):
+                c.ok("copy_to_native")
+        for prim in ("to_native", "to_bytearray"):
+            b, m = fresh()
+            okc, r = call(c, prim, feat, lambda: getattr(b, prim)(off, n))
+            if okc:
+                rb = r.tobytes() if isinstance(r, np.ndarray) else bytes(r)
+                if rb != bytes(m[off : off + n]):
+                    c.bad(prim, "wrong-content", "%d bytes returned, %d requested" % (len(rb), n), **feat)
+                elif expect_state(c, prim, b, m, feat):
+                    c.ok(prim)
+        vals = np.frombuffer(payload(n - n % 8, salt + 21), dtype="<i8").copy()
+        b, m = fresh()
+        f3 = dict(feat, dtype="<i8", layout="C")
+        okc, _ = call(c, "update_from_nplike", f3, lambda: b.update_from_nplike(off, np.dtype("<i8"), vals))
+        if okc:
+            m[off : off + vals.nbytes] = vals.tobytes()
+            if expect_state(c, "update_from_nplike", b, m, f3):
+                c.ok("update_from_nplike")
+        # the copy into fresh storage made by a growth
+        b, m = fresh()
+        okc, _ = call(c, "grow", feat, lambda: b.grow(4096))
+        if okc:
+            m2 = bytearray(m) + bytearray(4096)
+            got = raw(b)
+            if b.capacity != len(m2) or got[: len(m)] != bytes(m):
+                c.bad("grow", "wrong-bytes", "the old storage did not travel in full (capacity %d)" % b.capacity, **feat)
+            else:
+                c.ok("grow")
+        res.cases += 1
+    res.states = res.nontrivial = res.cases
+    res.max_depth = 1
+    return res
+
+
 def run_shard(shard, tier, seed):
+    if shard[0] == "big":
+        HISTORY[0] = "fresh"
+        return run_big(shard[1], tier, seed)
     kind, cap = shard[:2]
     HISTORY[0] = shard[2] if len(shard) > 2 else "fresh"  # this process only
     res = common.ShardResult()
@@ -377,5 +464,8 @@ def run_shard(shard, tier, seed):
 
 def replay(case):
     res = common.ShardResult()
+    if case.get("cap") == -1:
+        r = run_big(case["kind"], "thorough", 0)
+        return [v for v in r.violations if v["features"].get("primitive") == case.get("primitive")]
     r = run_shard((case["kind"], case["cap"], case.get("buffer_history", "fresh")), "quick", 0)
     return [v for v in r.violations if v["features"].get("primitive") == case.get("primitive")]
